@@ -54,11 +54,15 @@ open ScyllaVerif.Ring ScyllaVerif.Replicas ScyllaVerif.Plan
 
 /-! ### sharders -/
 
-/-- `Sharder { nr_shards, msb_ignore }`. -/
+/-- `Sharder { nr_shards, msb_ignore }`. `nr_shards` is a `NonZeroU16` in the Rust: the values the code can hold are
+those with `SharderM.Valid`. -/
 structure SharderM where
   nr : Nat
   msb : UInt8
   deriving DecidableEq, Repr
+
+/-- `ShardCount = NonZeroU16`. -/
+def SharderM.Valid (s : SharderM) : Prop := 0 < s.nr ∧ s.nr ≤ 65535
 
 /-- `with_computed_shard`: `node.sharder().map(|s| s.shard_of(token)).unwrap_or(0)`. -/
 def computedShard (sh : Option SharderM) (tok : Int) : Nat :=
@@ -340,6 +344,13 @@ inductive PoolConns where
   | sharded (s : SharderM) (buckets : List (List Conn))
   deriving Repr
 
+/-- `Node::sharder()` = `NodeConnectionPool::sharder()` (`cluster/node.rs:210-212`, `connection_pool.rs:312-318`): the
+sharder of the pool the node's refiller last published; `None` while the pool is initializing / broken or for a node
+without shards. -/
+def nodeSharder : Option PoolConns → Option SharderM
+  | some (.sharded s _) => some s
+  | _ => none
+
 /-- `choose_random_connection_from_slice` (`idx = random_range(0..len)` as `r % len`; one element: that one). -/
 def chooseConn (v : List Conn) (r : Nat) : Option Conn :=
   if v.isEmpty then none else v[r % v.length]?
@@ -351,7 +362,9 @@ def swapRemoveAt {α : Type} (l : List α) (idx : Nat) : List α :=
   | some last => (l.set idx last).dropLast
 
 /-- The `while !shards_to_try.is_empty()` loop: iteration `k` draws `ρ k = (index into shards_to_try, index into the
-bucket)`.  `fuel` = `shards_to_try.len()` (one shard is removed per iteration).  `none` = `unreachable!`. -/
+bucket)`.  `fuel` = `shards_to_try.len()` (one shard is removed per iteration).  `none` = a Rust panic: `unreachable!`,
+or the index `shard_conns[shard]` out of bounds when the bucket vector is shorter than `nr_shards` (excluded for a
+published pool: `PoolOk`). -/
 def tryShards (buckets : List (List Conn)) (ρ : Nat → Nat × Nat) : Nat → Nat → List Nat → Option Conn
   | 0, _, _ => none
   | fuel + 1, k, toTry =>
@@ -359,9 +372,12 @@ def tryShards (buckets : List (List Conn)) (ρ : Nat → Nat × Nat) : Nat → N
     else
       let idx := (ρ k).1 % toTry.length
       let shard := toTry.getD idx 0
-      match chooseConn (buckets.getD shard []) (ρ k).2 with
-      | some c => some c
-      | none => tryShards buckets ρ fuel (k + 1) (swapRemoveAt toTry idx)
+      match buckets[shard]? with
+      | none => none                       -- `shard_conns[shard as usize]` out of bounds: a panic
+      | some bucket =>
+        match chooseConn bucket (ρ k).2 with
+        | some c => some c
+        | none => tryShards buckets ρ fuel (k + 1) (swapRemoveAt toTry idx)
 
 /-- Random choices of one `connection_for_shard` call. -/
 structure PoolRho where
